@@ -218,12 +218,34 @@ class HList:
         self.rule = rule
         if items is None and seq is None and rule is None:
             self.items = []
+        self.tag = {}
 
     def clone(self):
-        return HList(self.items, self.seq, self.rule)
+        c = HList(self.items, self.seq, self.rule)
+        c.tag = dict(self.tag)
+        return c
 
 
 DELETED = object()
+MISSING = object()      # leaf of a conditional entry: "no override here, fall through to the symbolic base"
+
+
+class Cond:
+    """conditional override entry of an HDict produced by state merging: if c then a else b,
+    a / b in {Val, DELETED, MISSING, Cond}"""
+
+    def __init__(self, c, a, b):
+        self.c, self.a, self.b = c, a, b
+
+    def leaves(self, pre=None):
+        out = []
+        for cond, e in ((self.c, self.a), (z3.Not(self.c), self.b)):
+            cc = cond if pre is None else z3.And(pre, cond)
+            if isinstance(e, Cond):
+                out.extend(e.leaves(cc))
+            else:
+                out.append((cc, e))
+        return out
 
 
 class HDict:
@@ -233,9 +255,12 @@ class HDict:
     def __init__(self, over=None, sym=None):
         self.over = dict(over or {})
         self.sym = sym
+        self.tag = {}
 
     def clone(self):
-        return HDict(self.over, self.sym)
+        c = HDict(self.over, self.sym)
+        c.tag = dict(self.tag)
+        return c
 
 
 class HSet:
